@@ -577,6 +577,8 @@ func (m *Machine) call(st Step, a *rlwe.Ciphertext, b interface{}, out **rlwe.Ci
 		return ev.MulRelinThenAdd(a, b, o)
 	case "Rescale":
 		return ev.Rescale(a, o)
+	case "RescaleTo":
+		return ev.RescaleTo(a, m.p.DefaultScale(), o)
 	case "Relinearize":
 		if st.New {
 			*out, err = ev.RelinearizeNew(a)
